@@ -1763,13 +1763,19 @@ class PSBTOut:
                     )
         elif self.witness_script:
             if self.redeem_script:
+                if not script_pubkey.is_p2sh():
+                    raise ValueError("RedeemScript included in non-p2sh output")
                 h160 = script_pubkey.commands[1]
                 if self.redeem_script.hash160() != h160:
                     raise ValueError(
                         "RedeemScript hash160 and ScriptPubKey hash160 do not match"
                     )
+                if not self.redeem_script.is_p2wsh():
+                    raise ValueError("RedeemScript is not a p2wsh program")
                 s256 = self.redeem_script.commands[1]
             else:
+                if not script_pubkey.is_p2wsh():
+                    raise ValueError("WitnessScript included in non-p2wsh output")
                 s256 = script_pubkey.commands[1]
             if self.witness_script.sha256() != s256:
                 raise ValueError(
